@@ -314,3 +314,63 @@ Example fragment_instance :
   wf_b t2 = true /\ depth t2 = 4%nat /\ length (spell t2) = 11%nat /\
   text_of (spell t1) = [ $"-  ab" ++ [10]; [10]; $"   > cd" ++ [10]; $"   > " ++ [10]; $"   > 12) e" ++ [10]; [10]; $"   f" ++ [10] ].
 Proof. vm_compute. repeat split; reflexivity. Qed.
+
+(* ---- the token tree: the inline phase on the fragment ---- *)
+From Mistletoe Require Import Model.Tree Model.Inline Model.Build.
+
+Fixpoint tok_of (t : ftree) : tok :=
+  match t with
+  | FPara c body => Paragraph [RawText (c :: body)]
+  | FQuote ts => Quote (map tok_of ts)
+  | FItem mk pad ts =>
+    let leader := marker_str mk in
+    let loose := 1 <? Z.of_nat (length ts) in
+    List (if slen leader =? 1 then None else Some (int_of_digits (removelast leader))) loose
+         [ListItem (mkItem leader 0 (Z.of_nat (length leader + pad)) loose) (map tok_of ts)]
+  end.
+
+Section Tokens.
+  Variable span_types : list span_kind.
+  Variable keep : bool.
+  Variable fn : footnotes.
+  Hypothesis Hquiet : forallb kind_quiet (removelast span_types) = true.
+
+  Lemma build_fragment : forall f t ln, (depth t <= f)%nat -> wf_b t = true ->
+    build span_types keep fn (pre_of ln t) = Some (tok_of t).
+  Proof.
+    induction f as [|f IH]; intros t ln Hd Hw.
+    - destruct t as [c body|ts|mk pad ts]; [|cbn [depth] in Hd; lia|cbn [depth] in Hd; lia].
+      cbn [wf_b] in Hw. apply andb_true_iff in Hw as [Hw _]. apply plain_line_reflect in Hw.
+      cbn [pre_of build map concat tok_of]. rewrite app_nil_r.
+      change (c :: body ++ [10]) with ((c :: body) ++ [10]).
+      destruct (strip_line (c :: body) Hw) as [S _]. rewrite S.
+      unfold inline. destruct Hw as (Hp & _ & Hne & _). rewrite tokenize_inner_plain by assumption. reflexivity.
+    - assert (Kids : forall ts ln, Forall (fun t => (depth t <= f)%nat) ts -> forallb wf_b ts = true ->
+                flat_map (fun e => match build span_types keep fn e with Some t => [t] | None => [] end) (pre_seq ln ts) = map tok_of ts).
+      { induction ts as [|t0 r IHr]; intros ln0 Hds Hws; [reflexivity|].
+        inversion Hds; subst. cbn [forallb] in Hws. apply andb_true_iff in Hws as [Hw1 Hwr].
+        cbn [pre_seq flat_map map]. rewrite (IH t0 ln0) by assumption. cbn [app]. f_equal. apply IHr; assumption. }
+      destruct t as [c body|ts|mk pad ts].
+      + cbn [wf_b] in Hw. apply andb_true_iff in Hw as [Hw _]. apply plain_line_reflect in Hw.
+        cbn [pre_of build map concat tok_of]. rewrite app_nil_r.
+        change (c :: body ++ [10]) with ((c :: body) ++ [10]).
+        destruct (strip_line (c :: body) Hw) as [S _]. rewrite S.
+        unfold inline. destruct Hw as (Hp & _ & Hne & _). rewrite tokenize_inner_plain by assumption. reflexivity.
+      + cbn [wf_b] in Hw. repeat rewrite andb_true_iff in Hw. destruct Hw as [[_ Hall] _].
+        rewrite pre_of_quote. cbn [build tok_of]. rewrite Kids; [reflexivity| |exact Hall].
+        apply children_depth. cbn [depth] in Hd. exact Hd.
+      + cbn [wf_b] in Hw. repeat rewrite andb_true_iff in Hw. destruct Hw as [[[[[[_ _] _] _] Hall] _] _].
+        rewrite pre_of_item. cbn [build flat_map app tok_of existsb i_loose i_leader orb].
+        rewrite Kids; [rewrite orb_false_r; reflexivity| |exact Hall].
+        apply children_depth. cbn [depth] in Hd. exact Hd.
+  Qed.
+End Tokens.
+
+(* parse-after-write on the fragment, through the inline phase: the token tree is the tree the text was written from *)
+Theorem fragment_token_tree types span_types keep fn t f ln st :
+  fragment_config types = true -> forallb kind_quiet (removelast span_types) = true -> wf_b t = true -> (depth t <= f)%nat ->
+  make_tokens span_types keep fn (fst (fst (tokenize_block types (S f) (text_of (spell t)) ln st))) = [tok_of t].
+Proof.
+  intros Hc Hq Hw Hd. rewrite fragment_tree_cfg by assumption. cbn [fst]. unfold make_tokens. cbn [flat_map].
+  rewrite (build_fragment span_types keep fn Hq f t ln Hd Hw). reflexivity.
+Qed.
